@@ -97,8 +97,49 @@ ApplyCtx(t) ==
               IF br # {} /\ KF_C10_1(st0, post1) THEN {"KF-C10-1"} ELSE {}>> >>,
        drift |-> <<>>]
 
+(***************************************************************************)
+(* a rewrite that adds an alignment requirement: a patch with `.align N`   *)
+(* is inserted at offset p of the interval (inside the second block).      *)
+(*   t = [v, pre, post, p, pp, pa, pn, tabpre, tabpost, alxpre, alx, ...]  *)
+(* pp / pa: the patch bytes before / from the `.align` on (assembled on    *)
+(* their own); alx: the blocks of the module's alignment table after the   *)
+(* rewrite with their addresses.  Level A: every requirement of the table  *)
+(* after the rewrite holds (those that held before, and those the patch    *)
+(* added); the interval's bytes are the edited bytes plus one run of fewer *)
+(* than N whole nops, placed at or before the aligned code, inside blocks. *)
+(***************************************************************************)
+\* KF-C10-2 (findings/KF-C10-2): ELF module without an alignment table:
+\* prepare_for_rewriting hands a private empty dict to join_byte_intervals, so
+\* the entry the patch adds to the (new) module table is not honoured.
+AlPatchCtx(t) ==
+  LET iv == t.pre.ivs[1]
+      dom == /\ WellFormed(t.pre) /\ Len(t.pre.ivs) = 1 /\ iv.addr # -1 /\ iv.init = iv.size
+             /\ t.pn \in {2, 4, 8, 16} /\ t.p >= 0 /\ t.p <= iv.size
+             /\ \A e \in Range(t.alxpre) : e.addr >= 0 /\ e.addr % e.a = 0
+      done == dom /\ t.exc = "" /\ t.stage = "done"
+      shape == done /\ Len(t.post.ivs) = 1 /\ t.post.ivs[1].id = 100
+      d == IF shape THEN t.post.ivs[1] ELSE iv
+      edited == SubSeq(iv.by, 1, t.p) \o t.pp \o t.pa \o SubSeq(iv.by, t.p + 1, Len(iv.by))
+      Padded(q, L) == SubSeq(edited, 1, q) \o Repeat(<<144>>, L) \o SubSeq(edited, q + 1, Len(edited))
+      fits == {c \in (0..(t.p + Len(t.pp))) \X (0..(t.pn - 1)) :
+                 /\ d.by = Padded(c[1], c[2])
+                 /\ \A x \in c[1]..(c[1] + c[2] - 1) :
+                       \E b \in Range(d.blocks) : b.k = "c" /\ b.o <= x /\ x < b.o + b.s}
+      pl == shape /\ d.addr = iv.addr /\ d.size = Len(d.by) /\ d.init = d.size /\ fits # {}
+      broken == {e \in Range(t.alx) : e.addr >= 0 /\ e.addr % e.a # 0}
+      newreq == {e \in Range(t.alx) : e.id = 0 /\ e.a = t.pn}
+      kf2 == /\ t.v.fmt = "elf" /\ t.tabpre = "absent"
+             /\ broken # {} /\ \A e \in broken : e.id = 0
+             /\ d.by = edited
+  IN  [clauses |->
+         << <<"C10_Completes", dom, t.exc = "" /\ t.stage = "done", <<t.exc, t.stage>>, {}>>,
+            <<"C10_PaddingLegal", done, pl, <<"bytes", d.by, edited>>, {}>>,
+            <<"C10_AlignmentHolds", shape, broken = {} /\ newreq # {} /\ t.tabpost = "entries",
+              <<broken, t.tabpre, t.tabpost>>, IF kf2 THEN {"KF-C10-2"} ELSE {}>> >>,
+       drift |-> <<>>]
+
 Verdict(t) ==
-  LET X == IF t.v.op = "apply" THEN ApplyCtx(t) ELSE SjCtx(t)
+  LET X == IF t.v.op = "apply" THEN ApplyCtx(t) ELSE IF t.v.op = "alpatch" THEN AlPatchCtx(t) ELSE SjCtx(t)
       cs == X.clauses
       bad == SelectSeq(cs, LAMBDA c : c[2] /\ ~c[3])
       indom == SelectSeq(cs, LAMBDA c : c[2])
@@ -112,6 +153,7 @@ Verdict(t) ==
 
 TInit == /\ tid = 1
          /\ lay = <<>> /\ phase = "trace" /\ cur = <<>> /\ mid = <<>> /\ nopk = "-" /\ exc = ""
+         /\ added = 0 /\ priv = FALSE
 TNext == /\ tid <= Len(Traces)
          /\ PrintT("VERDICT " \o ToJson(Verdict(Traces[tid])))
          /\ tid' = tid + 1
